@@ -77,6 +77,10 @@ func runOne(ctx context.Context, d solverDef, query string) SolveResult {
 	text := out.String()
 	first := strings.TrimSpace(strings.SplitN(text, "\n", 2)[0])
 	r := SolveResult{Solver: d.name, Output: text, Verdict: "unknown"}
+	if strings.HasPrefix(first, "(error") {
+		r.Output = "SOLVER-ERROR " + text
+		return r
+	}
 	switch first {
 	case "sat":
 		r.Verdict = "sat"
